@@ -16,7 +16,7 @@ import z3
 
 from . import values as Vm
 from .values import (V, KInt, KReal, KBool, KStr, KDyn, KNone, KFn, KSetInt, KRef, KList, KTuple,
-                     KDict, IntV, RealV, BoolV, StrV, NONE, DynV, TupV, Unsupported, SpecError,
+                     KDict, KRecord, IntV, RealV, BoolV, StrV, NONE, DynV, TupV, Unsupported, SpecError,
                      DynS, fresh, fresh_name, merge, coerce, to_dyn, tuple_items, DictOps, ListOps)
 from .contracts import (REGISTRY, FIELDS, LIB_CLASSES, SPEC_FUNCS, SPEC_DEFS, GLOBALS, Contract, Clause)
 from .extract import Repo, FuncInfo, body_without_docstring
@@ -914,6 +914,17 @@ class Engine:
             raise Unsupported(f'assignment target {type(t).__name__}')
 
     def coerce_local(self, v, kind):
+        if isinstance(kind, KRecord):
+            if isinstance(v.kind, KRecord):
+                return v
+            if v.meta == 'emptydict':
+                return V(kind, kind.empty())
+            if isinstance(v.meta, StaticDict):
+                t = kind.empty()
+                for kk, vv in v.meta.items:
+                    t = kind.with_field(t, kk.meta, z3.BoolVal(True), coerce(vv, kind.fields[kk.meta]).term)
+                return V(kind, t)
+            raise Unsupported('cannot turn this dict into a record')
         if v.meta == 'emptydict' and isinstance(kind, KDict):
             return V(kind, DictOps(kind).empty())
         if v.meta == 'empty' and isinstance(kind, KList):
@@ -974,6 +985,11 @@ class Engine:
 
     def store_item(self, cont: V, k: V, v: V, st: State, must_exist=False) -> V:
         kd = cont.kind
+        if isinstance(kd, KRecord):
+            if not isinstance(k.meta, str) or k.meta not in kd.fields:
+                raise Unsupported('record dict store must use one of its constant keys')
+            vv = coerce(v, kd.fields[k.meta])
+            return V(kd, kd.with_field(cont.term, k.meta, z3.BoolVal(True), vv.term))
         if isinstance(kd, KDict):
             ops = DictOps(kd)
             kk = coerce(k, kd.key)
@@ -1114,7 +1130,22 @@ class Engine:
         # 2. havoc
         assigned = self.assigned_names(s.body) | self.assigned_names([ast.Expr(s.target)]) \
             | {n_.id for n_ in ast.walk(s.target) if isinstance(n_, ast.Name)} | set(spec.modifies)
-        heap_keys = self.modified_heap_keys(s.body)
+        # static classes of names visible in the body (locals + the loop target) sharpen callee resolution
+        ncls = {nm: v.kind.cls for nm, v in st.env.items() if v is not None and isinstance(v.kind, KRef) and v.kind.cls}
+        try:
+            probe = st.copy()
+            probe.env = dict(st.env)
+            self.spec_mode += 1
+            try:
+                self.assign(s.target, at(z3.Int(fresh_name('kprobe'))), probe)
+            finally:
+                self.spec_mode -= 1
+            for nm, v in probe.env.items():
+                if v is not None and isinstance(v.kind, KRef) and v.kind.cls:
+                    ncls[nm] = v.kind.cls
+        except Unsupported:
+            pass
+        heap_keys = self.modified_heap_keys(s.body, name_classes=ncls)
         entry = st.copy()
 
         def havoc(state):
@@ -1264,7 +1295,7 @@ class Engine:
                         keys.add(f'{c}.{fld}')
         return keys
 
-    def modified_heap_keys(self, stmts, _depth=0, _seen=None):
+    def modified_heap_keys(self, stmts, _depth=0, _seen=None, name_classes=None):
         """Heap keys possibly written by the statements (None = unknown => havoc all).  Static
         over-approximation: callees are resolved by name over all repository classes; callees under
         contract contribute their modifies clause, others are scanned recursively."""
@@ -1274,8 +1305,22 @@ class Engine:
         seen = _seen if _seen is not None else set()
         allocs = [False]
 
-        def callee_keys(name):
-            cands = [fi for k, fi in eng.repo.funcs.items() if fi.qualname.split('.')[-1] == name and '.<' not in k]
+        name_classes = name_classes or {}
+
+        def callee_keys(name, recv_cls=None):
+            if recv_cls is not None and recv_cls in eng.repo.classes:
+                fi0 = eng.repo.find_method(recv_cls, name)
+                cands = [fi0] if fi0 is not None else []
+                # subclasses may override
+                for sub in eng.repo.subclasses(recv_cls):
+                    fo = eng.repo.classes[sub].methods.get(name)
+                    if fo is not None and fo not in cands:
+                        cands.append(fo)
+            else:
+                cands = [fi for k, fi in eng.repo.funcs.items() if fi.qualname.split('.')[-1] == name and '.<' not in k]
+            # no function of the repository is recursive (a recursive call would be `unsupported` when
+            # executed): the function under verification is not a candidate callee of its own loops
+            cands = [fi for fi in cands if fi.key != eng.fi.key]
             if not cands:
                 return False
             for fi in cands:
@@ -1363,7 +1408,10 @@ class Engine:
                     return
                 if name in eng.B.PURE_NAMES:
                     return
-                if callee_keys(name):
+                recv_cls = None
+                if isinstance(n.func, ast.Attribute) and isinstance(n.func.value, ast.Name):
+                    recv_cls = name_classes.get(n.func.value.id)
+                if callee_keys(name, recv_cls):
                     return
                 if name in eng.repo.classes:
                     allocs[0] = True
@@ -1783,6 +1831,11 @@ class Engine:
 
     def getitem(self, base: V, k: V, st):
         kd = base.kind
+        if isinstance(kd, KRecord):
+            if not isinstance(k.meta, str) or k.meta not in kd.fields:
+                raise Unsupported('record dict subscript must be one of its constant keys')
+            self.require(st, kd.present(base.term, k.meta), 'KeyError', f'missing key {k.meta}')
+            return self.wf(st, V(kd.fields[k.meta], kd.value(base.term, k.meta)))
         if isinstance(kd, KDict):
             if base.meta == 'emptydict':
                 self.require(st, z3.BoolVal(False), 'KeyError')
@@ -2210,6 +2263,10 @@ class Engine:
 
     def contains(self, cont: V, x: V, st):
         k = cont.kind
+        if isinstance(k, KRecord):
+            if not isinstance(x.meta, str):
+                raise Unsupported('record dict membership with a non-constant key')
+            return k.present(cont.term, x.meta) if x.meta in k.fields else z3.BoolVal(False)
         if isinstance(k, KDict):
             if cont.meta == 'emptydict':
                 return z3.BoolVal(False)
